@@ -19,7 +19,7 @@ pub fn prop() -> Prop {
     Prop {
         id: "C09",
         level: "exploration",
-        rule: "proptest tapes decoding to: colour type (BinaryColor, Gray2, Gray4, Gray8, Rgb565, Rgb888, a 32-bit test colour) x data order (LittleEndianMsb0, BigEndianLsb0) x width, height in 0..=17 (all residues of the width modulo the pixels per byte) x random bytes x draw offset in [-9,9]^2 x up to two nested sub-image areas (inside, overlapping, outside, zero-sized) x Image::new / Image::with_center. Oracle: an independent bit-level reader of the documented layout (rows padded to whole bytes; little-endian bytes + MSB-first sub-byte pixels or big-endian bytes + LSB-first) -- ImageRaw::new accepts exactly ceil(w*bpp/8)*h bytes; pixel(p) equals the reference inside and is None on a ring outside; drawing to a draw_iter-only and to a native-fill target sets exactly offset + p -> reference(p) and nothing else; every colour stream handed to fill_contiguous contains exactly area.width x area.height colours when drained; a sub-image behaves like the reference restricted to area intersected with the parent box, nested sub-images compose; with_center centres by the rule of Rectangle::with_center. Non-trivial: the width is not a multiple of the pixels per byte, or a sub-image that does not touch the last row of its parent (data follows its last row).",
+        rule: "proptest tapes decoding to: colour type (BinaryColor, Gray2, Gray4, Gray8, Rgb565, Rgb888, a 32-bit test colour) x data order (LittleEndianMsb0, BigEndianLsb0) x width, height in 0..=17 (all residues of the width modulo the pixels per byte; one case in eight a strip with a side of 246..=600 px) x random bytes x draw offset in [-9,9]^2 x up to two nested sub-image areas (inside, overlapping, outside, zero-sized) x Image::new / Image::with_center. Oracle: an independent bit-level reader of the documented layout (rows padded to whole bytes; little-endian bytes + MSB-first sub-byte pixels or big-endian bytes + LSB-first) -- ImageRaw::new accepts exactly ceil(w*bpp/8)*h bytes; pixel(p) equals the reference inside and is None on a ring outside; drawing to a draw_iter-only and to a native-fill target sets exactly offset + p -> reference(p) and nothing else; every colour stream handed to fill_contiguous contains exactly area.width x area.height colours when drained; a sub-image behaves like the reference restricted to area intersected with the parent box, nested sub-images compose; with_center centres by the rule of Rectangle::with_center. Non-trivial: the width is not a multiple of the pixels per byte, or a sub-image that does not touch the last row of its parent (data follows its last row).",
         assumptions: vec![
             "the reference layout reader is written from the rustdoc of ImageRaw and of the two DataOrder types",
         ],
@@ -73,7 +73,16 @@ where
     O: DataOrder,
 {
     let bpp = C::Raw::BITS_PER_PIXEL as u32;
-    let (w, h) = (d.u(0, 17), d.u(0, 17));
+    // mostly small images (all residues of the width modulo the pixels per byte); one case in eight
+    // is a long strip (a side up to 600 px: truncating casts, byte offsets beyond 255 / 65535)
+    let (w, h) = match d.u(0, 7) {
+        0 => {
+            let long = d.pick(&[255u32, 256, 257, 300, 511, 513, 600]) - d.u(0, 9);
+            let short = d.u(1, 5);
+            if d.bool() { (long, short) } else { (short, long) }
+        }
+        _ => (d.u(0, 17), d.u(0, 17)),
+    };
     let stride = (w as usize * bpp as usize + 7) / 8;
     let n = stride * h as usize;
     let mut x = d.raw() | 1;
